@@ -171,10 +171,17 @@ func (d *dir) RepoGet(ctx context.Context, repoStr string) (Repo, error) {
 	dr.uploads = cache.New[string, *dirRepoUpload](uploadCacheOpts)
 	dr.wgBlock <- struct{}{}
 	statDir, err := os.Stat(dr.path)
+	if err != nil && gcReadFailed(err) {
+		// whether the repo exists is unknown, "does not exist" must not be cached with the repo
+		return nil, err
+	}
 	if err == nil && statDir.IsDir() {
 		statIndex, errIndex := os.Stat(filepath.Join(dr.path, indexFile))
 		//#nosec G304 internal method is only called with filenames within admin provided path.
 		layoutBytes, errLayout := os.ReadFile(filepath.Join(dr.path, layoutFile))
+		if (errIndex != nil && gcReadFailed(errIndex)) || (errLayout != nil && gcReadFailed(errLayout)) {
+			return nil, errors.Join(errIndex, errLayout)
+		}
 		if errIndex == nil && errLayout == nil && !statIndex.IsDir() && layoutVerify(layoutBytes) {
 			dr.exists = true
 		}
